@@ -4,7 +4,7 @@
    (= NumPy 1-D indexing arr[idx] for slices, integer sequences and boolean masks), both
    validated against CPython / NumPy on every run of ./check C18. *)
 From Coq Require Import ZArith List Bool Lia.
-From NV Require Import Base.PySlice C18.Model C18.Lemmas C18.Tables C18.ModelXml C18.LemmasXml.
+From NV Require Import Base.PySlice C18.Model C18.Lemmas C18.Tables C18.ModelXml C18.LemmasXml C18.ModelJoin C18.LemmasJoin.
 Import ListNotations.
 Open Scope Z_scope.
 
@@ -204,8 +204,8 @@ Print Assumptions C18_header_roundtrip.
 
 (* the saved file at the level of the AXES, with payloads of interned values; GIVEN two oracles
    as premises (the XML premise is, for headers whose strings are clean, what
-   C18_xml_roundtrip_iff below proves about the real XML structure; joining the interned
-   payloads of Scalar/Label/Parcels axes to that structure is not formalised): the XML layer returns the matrix of
+   C18_xml_roundtrip_iff below proves about the real XML structure; the statement WITHOUT an
+   XML premise is C18_axes_end_to_end): the XML layer returns the matrix of
    index maps it was given (Cifti2*._to_xml_element + Cifti2Parser/expat) and the NIfTI-2
    container returns shape, extension 32 and data (C01/C11).  Then loading what was saved
    gives the same data, the same data shape, and axes equal to the ones written.  The XML
@@ -318,6 +318,62 @@ Theorem C18_file_roundtrip : forall bs_valid show_ints show_vox show_matrix load
   xml_load bs_valid loadtxt_ints loadtxt_floats nifti_read f = XOk (norm h, shape, data).
 Proof. exact xml_file_roundtrip. Qed.
 Print Assumptions C18_file_roundtrip.
+
+(* ---------------------------------------------------------------- axes <-> XML header structure (ModelJoin.v) *)
+(* to_mapping / from_index_mapping of the five classes between the axis records and the children
+   of a MatrixIndicesMap (Volume placed before the first voxel BrainModel / first in a parcels map,
+   one Surface for EVERY nvertices entry, NamedMaps, Parcels with their Vertices), parametric in
+   the interning of map names / metadata / label tables / voxel tables (premises: every content
+   has the id it was given).  (1) the exact normalisation for Scalar and Label axes (S-C18c at
+   the level of the axes): what comes back are the ids of the stripped names, rebuilt metadata
+   and label tables. *)
+Theorem C18_scalar_label_normalisation : forall name_str name_id meta_c meta_id label_c label_id vox_c vox_id,
+  (forall a, sc_wf a ->
+     xrt name_str name_id meta_c meta_id label_c label_id vox_c vox_id (ASc a)
+     = Ok (ASc (mkSc (map (nname name_str name_id) (sc_name a)) (map (nmeta meta_c meta_id) (sc_meta a)))))
+  /\ (forall a, lab_wf a ->
+     xrt name_str name_id meta_c meta_id label_c label_id vox_c vox_id (ALab a)
+     = Ok (ALab (mkLab (map (nname name_str name_id) (lb_name a)) (map (nlabel label_c label_id) (lb_label a))
+                       (map (nmeta meta_c meta_id) (lb_meta a))))).
+Proof.
+  exact (fun ns ni mc mi lc li vc vi => conj (join_scalar_norm ns ni mc mi lc li vc vi) (join_label_norm ns ni mc mi lc li vc vi)).
+Qed.
+Print Assumptions C18_scalar_label_normalisation.
+
+(* (2) from_index_mapping (norm (to_mapping ax)) == ax for every good axis: well formed, texts
+   clean (map names non-empty and strip-fixed, metadata / label tables strip-fixed with distinct
+   keys, label names non-empty), structure names valid, 16 affine entries, parcel vertices only
+   on structures of nvertices *)
+Theorem C18_to_mapping_roundtrip : forall name_str name_id meta_c meta_id label_c label_id vox_c vox_id,
+  (forall i, name_id (Some (name_str i)) = i) -> (forall i, meta_id (meta_c i) = i) ->
+  (forall i, label_id (label_c i) = i) -> (forall i, vox_id (vox_c i) = i) ->
+  forall bs_valid a, axis_good name_str meta_c label_c bs_valid a ->
+  exists m a', xenc name_str meta_c label_c vox_c a = Ok m
+    /\ xdec name_id meta_id label_id vox_id (norm_payload m) = Ok a' /\ axis_eqb a' a = true.
+Proof. exact axis_good_roundtrip. Qed.
+Print Assumptions C18_to_mapping_roundtrip.
+
+(* (3) END TO END at the level of the axes, no XML premise: for every tuple of good axes,
+   Cifti2Header.from_axes (equal axes share one map, by the == equivalence) -> to_xml -> expat
+   events -> Cifti2Parser -> header -> get_axis(i) is an axis == axes[i].  Premises: the
+   interning tables are consistent and the number-text oracles invert each other. *)
+Theorem C18_axes_end_to_end : forall name_str name_id meta_c meta_id label_c label_id vox_c vox_id,
+  (forall i, name_id (Some (name_str i)) = i) -> (forall i, meta_id (meta_c i) = i) ->
+  (forall i, label_id (label_c i) = i) -> (forall i, vox_id (vox_c i) = i) ->
+  forall bs_valid show_ints show_vox show_matrix loadtxt_ints loadtxt_floats,
+  show_ints [] = [] ->
+  (forall l, l <> [] -> show_ints l <> [] /\ loadtxt_ints (strip (show_ints l)) = Some l) ->
+  (forall v, v <> [] -> show_vox v <> [] /\ exists l, loadtxt_ints (strip (show_vox v)) = Some l /\ triples l = Some v) ->
+  (forall m, length m = 16%nat -> show_matrix m <> [] /\ loadtxt_floats (strip (show_matrix m)) = Some m) ->
+  forall axes, Forall (axis_good name_str meta_c label_c bs_valid) axes ->
+  exists mat ev, to_header axis_eqb (xenc name_str meta_c label_c vox_c) axes = Ok mat
+    /\ write show_ints show_vox show_matrix (mat_header mat) = XOk ev
+    /\ parse bs_valid loadtxt_ints loadtxt_floats ev = XOk (norm (mat_header mat))
+    /\ forall i ax, nth_error axes i = Some ax ->
+         exists a', get_axis (xdec name_id meta_id label_id vox_id) (header_mat (norm (mat_header mat))) (Z.of_nat i) = Ok a'
+                    /\ axis_eqb a' ax = true.
+Proof. exact axes_end_to_end. Qed.
+Print Assumptions C18_axes_end_to_end.
 
 (* non-vacuity: an interleaved axis (cortex / thalamus / cortex / thalamus / cortex) is well
    formed; its maps, the decoded axis and a fancy index compute to the expected values *)
